@@ -26,6 +26,7 @@ import (
 	"testing"
 
 	"github.com/tsawler/tabula"
+	"github.com/tsawler/tabula/reader"
 	"pgregory.net/rapid"
 
 	"verif/harness/gen/pdfw"
@@ -67,7 +68,10 @@ type Case struct {
 	// TwoCol: 1-based pages that carry, besides their markers, a block of 8 rows in two columns (22 fragments on the
 	// page: laid out in columns, while the other pages are single-column)
 	TwoCol []int  `json:"two_col,omitempty"`
-	Steps  []Step `json:"steps"`
+	// Borrowed (good files only): node 0 is tabula.FromReader(r) on a reader the caller opened and closes itself;
+	// no extractor may close it, every operation can be repeated, and nothing else is ever opened
+	Borrowed bool   `json:"borrowed,omitempty"`
+	Steps    []Step `json:"steps"`
 }
 
 func init() { vr.Register("tree", checkCase) }
@@ -402,20 +406,24 @@ func groundTruth(op string, r result, selAll []int, n int, blank map[int]bool) e
 		}
 		_ = json.Unmarshal(js, &pgs)
 		if len(blank) > 0 {
-			// blank pages may or may not be presented as empty pages; those presented must be selected blank pages
+			// one page per selected page: a page without content is a result too (an empty page with its
+			// own number), so the pages of the document are the selection, one for one
+			var nums []int
+			for _, pg := range pgs {
+				nums = append(nums, pg.Number)
+			}
+			if !reflect.DeepEqual(nums, selAll) {
+				return fmt.Errorf("Document() has the pages %v, the selection is %v (blank pages %v)", nums, selAll, blank)
+			}
 			kept := pgs[:0:0]
 			for _, pg := range pgs {
-				if strings.TrimSpace(pg.Text) != "" {
-					kept = append(kept, pg)
+				if blank[pg.Number] {
+					if got := pagesIn(pg.Text, n); len(got) > 0 {
+						return fmt.Errorf("Document(): blank page %d holds text of pages %v", pg.Number, got)
+					}
 					continue
 				}
-				ok := false
-				for _, p := range selAll {
-					ok = ok || (p == pg.Number && blank[p])
-				}
-				if !ok {
-					return fmt.Errorf("Document() has an empty page numbered %d; the blank pages of the selection %v are %v", pg.Number, selAll, blank)
-				}
+				kept = append(kept, pg)
 			}
 			pgs = kept
 		}
@@ -485,9 +493,20 @@ func checkCase(c Case) error {
 
 	old := debug.SetGCPercent(-1) // a finalizer closing a leaked *os.File must not hide the leak
 	defer debug.SetGCPercent(old)
-	base := nfd(dir)
+	var borrowed *reader.Reader
+	if c.Borrowed && c.File == "ok" {
+		borrowed, err = reader.Open(path)
+		if err != nil {
+			return fmt.Errorf("reader.Open on a valid file: %v", err)
+		}
+		defer borrowed.Close()
+	}
+	base := nfd(dir) // (with the caller's own reader, if any)
 
 	nodes := map[int]*tabula.Extractor{0: tabula.Open(path)}
+	if borrowed != nil {
+		nodes[0] = tabula.FromReader(borrowed)
+	}
 	confs := map[int]config{0: {}}
 	session := map[int]bool{} // node holds a reader opened by a non-terminal operation
 	open := func() int {
@@ -528,7 +547,7 @@ func checkCase(c Case) error {
 			cf := confs[st.Node]
 			if terminal(st.Op) {
 				session[st.Node] = false
-			} else if !got.Err {
+			} else if !got.Err && borrowed == nil {
 				session[st.Node] = true
 			}
 			switch c.File {
@@ -684,6 +703,19 @@ func checkCase(c Case) error {
 	if fds := nfd(dir); fds != base {
 		return fmt.Errorf("after closing every extractor %d file descriptors are open, baseline %d", fds, base)
 	}
+	if borrowed != nil {
+		// "The caller is responsible for closing the reader": it is still the caller's, and usable
+		if n, err := borrowed.PageCount(); err != nil || n != c.NPages {
+			return fmt.Errorf("the reader given to FromReader reports %d pages (err=%v) after the extractors were used and closed, want %d", n, err, c.NPages)
+		}
+		if _, err := borrowed.GetPage(c.NPages - 1); err != nil {
+			return fmt.Errorf("the reader given to FromReader cannot read its last page after the extractors were used and closed: %v", err)
+		}
+		borrowed.Close()
+		if fds := nfd(dir); fds != base-1 {
+			return fmt.Errorf("after the caller closed its reader %d file descriptors are open, want %d", fds, base-1)
+		}
+	}
 	return nil
 }
 
@@ -721,6 +753,7 @@ func genCall(t *rapid.T, n int) Call {
 func genCase(t *rapid.T) Case {
 	c := Case{NPages: rapid.IntRange(1, 8).Draw(t, "npages")}
 	c.File = rapid.SampledFrom([]string{"ok", "ok", "ok", "ok", "ok", "ok", "missing", "truncated", "wrongext"}).Draw(t, "file")
+	c.Borrowed = c.File == "ok" && rapid.IntRange(0, 3).Draw(t, "borrowed") == 0
 	if c.NPages >= 2 && rapid.IntRange(0, 2).Draw(t, "hasBlank") == 0 {
 		for p := 1; p <= c.NPages; p++ {
 			if rapid.IntRange(0, 2).Draw(t, "blank") == 0 && len(c.Blank) < c.NPages-1 {
@@ -823,6 +856,9 @@ func meta(c Case) vr.Meta {
 	}
 	if c.File != "ok" {
 		nt = true
+	}
+	if c.Borrowed {
+		labels = append(labels, "from-reader")
 	}
 	if len(c.Blank) > 0 {
 		labels = append(labels, "blank-pages")
